@@ -3,6 +3,7 @@
 # Evaluates seeded changes against the FULL quick suite without touching the real /repo and /verif:
 # copies of both are bind-mounted over /repo and /verif in a private mount namespace, so the
 # checks (which have /repo and /verif paths compiled in) run unmodified while work goes on outside.
+# Environment: EVALROOT (where the copies live), SEED_PREFIX (seed | s2 | s3), CHECKS=own (own property's check only).
 set -u
 RES="$1"; shift
 mkdir -p "$RES" ${EVALROOT:-/tmp/evalroot}
@@ -19,7 +20,10 @@ unshare -m bash -c '
     [ -f "$patch" ] || { echo "$seed: no patch"; continue; }
     (cd /repo && git checkout -q -- . && git apply "$patch") || { echo "$seed: patch does not apply"; continue; }
     line="$seed:"
-    for c in C01 C02 C03 C04 C05 C06 C07 C08 C09 C10 C11 C12 C13 C14 C15 C16 C17 C18 C19 C20; do
+    checks="C01 C02 C03 C04 C05 C06 C07 C08 C09 C10 C11 C12 C13 C14 C15 C16 C17 C18 C19 C20"
+    # CHECKS=own: only the check of the change's own property
+    [ "${CHECKS:-all}" = own ] && checks=$id
+    for c in $checks; do
       out=$(./check $c --tier quick 2>&1); rc=$?
       nv=$(echo "$out" | grep -c "^VIOLATION")
       if [ $rc -ne 0 ]; then
